@@ -3,6 +3,7 @@ package main
 // C04 - line scanner conformance.
 //   c04-replay : replays TLC-enumerated behaviours of ScannerImm/ScannerBuf on the real scanners (B1)
 //   c04-trace  : records random long executions as read/tok/err/end/late events (B2)
+//   c04-breplay: see batch.go (the batching layer on top of the scanner)
 
 import (
 	"encoding/json"
@@ -21,7 +22,7 @@ import (
 )
 
 func main() {
-	vh.Main(vh.Commands{"replay": c04Replay, "trace": c04Trace})
+	vh.Main(vh.Commands{"replay": c04Replay, "trace": c04Trace, "breplay": c04BatchReplay})
 }
 
 type M = vh.M
@@ -104,27 +105,59 @@ type scanOutcome struct {
 	copies   [][]byte // copies taken at hand-out time
 	errs     int
 	afterEnd int
+	extra    int // Scan() calls that returned true after Scan() had returned false
 	hang     bool
 }
 
-func runScanner(variant string, rd *scriptedReader, size int, onTok func([]byte), onErr func()) scanOutcome {
+type scanOpts struct {
+	readLine bool // use ReadLine() (Scan+Bytes shorthand, nil at the end) instead of Scan()/Bytes()
+	noErrCb  bool // no OnError callback registered
+}
+
+type lineReader interface {
+	ReadLine() []byte
+}
+
+// runScanner drives one real scanner over the scripted reader to the end, then calls Scan() twice more
+// (the stream has ended: nothing may be read, returned or reported any more).
+func runScanner(variant string, rd *scriptedReader, size int, onTok func([]byte), onErr func(), onEnd func(), opt scanOpts) scanOutcome {
 	var out scanOutcome
 	done := make(chan struct{})
 	go func() {
 		defer close(done)
 		sc := newScanner(variant, rd, size)
-		sc.OnError(func(error) {
-			out.errs++
-			if onErr != nil {
-				onErr()
-			}
-		})
-		for sc.Scan() {
-			t := sc.Bytes()
+		if !opt.noErrCb {
+			sc.OnError(func(error) {
+				out.errs++
+				if onErr != nil {
+					onErr()
+				}
+			})
+		}
+		take := func(t []byte) {
 			out.held = append(out.held, t)
 			out.copies = append(out.copies, append([]byte{}, t...))
 			if onTok != nil {
 				onTok(t)
+			}
+		}
+		if opt.readLine {
+			lr := sc.(lineReader)
+			for t := lr.ReadLine(); t != nil; t = lr.ReadLine() {
+				take(t)
+			}
+		} else {
+			for sc.Scan() {
+				take(sc.Bytes())
+			}
+		}
+		if onEnd != nil {
+			onEnd()
+		}
+		for i := 0; i < 2; i++ {
+			if sc.Scan() {
+				out.extra++
+				take(sc.Bytes())
 			}
 		}
 	}()
@@ -163,9 +196,18 @@ func c04Replay(args []string) error {
 		if err := json.Unmarshal(raw, &v); err != nil {
 			return err
 		}
-		for _, variant := range []string{"imm", "buf"} {
+		for _, vr := range []struct {
+			name, variant string
+			opt           scanOpts
+		}{{"imm", "imm", scanOpts{}}, {"buf", "buf", scanOpts{}},
+			{"imm-readline", "imm", scanOpts{readLine: true}}, {"buf-readline", "buf", scanOpts{readLine: true}},
+			{"imm-nocallback", "imm", scanOpts{noErrCb: true}}, {"buf-nocallback", "buf", scanOpts{noErrCb: true}}} {
+			if vr.opt.noErrCb && v.Errs == 0 {
+				continue
+			}
+			variant := vr.name
 			rd := &scriptedReader{script: append([]scriptedRead{}, v.Reads...)}
-			o := runScanner(variant, rd, v.Buf, nil, nil)
+			o := runScanner(vr.variant, rd, v.Buf, nil, nil, nil, vr.opt)
 			n++
 			add := func(kind string, got interface{}) {
 				mism = append(mism, mismatch{raw, variant, kind, got})
@@ -196,8 +238,11 @@ func c04Replay(args []string) error {
 					}
 				}
 			}
-			if o.errs != v.Errs {
+			if o.errs != v.Errs && !vr.opt.noErrCb {
 				add("errcount", o.errs)
+			}
+			if o.extra != 0 {
+				add("scan-after-end", o.extra)
 			}
 			if o.afterEnd != 0 {
 				add("read-after-end", o.afterEnd)
@@ -293,6 +338,9 @@ func c04Trace(args []string) error {
 	n := fs.Int("n", 100, "number of traces")
 	maxLen := fs.Int("maxlen", 300, "max stream length")
 	big := fs.Int("big", 0, "number of production-wiring traces (128KiB buffer through the batcher)")
+	nbt := fs.Int("bt", 0, "number of batcher traces on the timed path (ms flush interval, pauses)")
+	nb250 := fs.Int("b250", 0, "number of batcher traces on the production 250 ms path")
+	nbf := fs.Int("bfiles", 0, "number of OpenFilesToChan calls (several files each)")
 	fs.Parse(args)
 	w, err := vh.NewNdWriter(*out)
 	if err != nil {
@@ -315,13 +363,14 @@ func c04Trace(args []string) error {
 		stream := randStream(r, ln)
 		// cut the stream at a random position for failure injection (bytes before the error count)
 		script := randScript(r, stream)
-		w.Write(M{"event": "reset", "t": tid, "variant": variant, "size": size})
+		w.Write(M{"event": "reset", "t": tid, "variant": variant, "size": size, "bsize": 0})
 		rd := &scriptedReader{script: script, log: func(d []byte, e string) {
 			w.Write(M{"event": "read", "data": B(d), "err": e})
 		}}
 		o := runScanner(variant, rd, size,
 			func(t []byte) { w.Write(M{"event": "tok", "data": B(t)}) },
-			func() { w.Write(M{"event": "err"}) })
+			func() { w.Write(M{"event": "err"}) },
+			func() { w.Write(M{"event": "end"}) }, scanOpts{readLine: r.Intn(4) == 0})
 		if o.hang {
 			w.Write(M{"event": "hang"})
 			continue
@@ -329,7 +378,6 @@ func c04Trace(args []string) error {
 		if o.afterEnd > 0 {
 			w.Write(M{"event": "readafterend", "n": o.afterEnd})
 		}
-		w.Write(M{"event": "end"})
 		// late re-read of retained slices (all of them for short traces, a sample otherwise)
 		step := 1
 		if len(o.held) > 40 {
@@ -370,7 +418,7 @@ func c04Trace(args []string) error {
 		}
 		end := []string{"eof", "fail"}[r.Intn(2)]
 		script = append(script, scriptedRead{D: []int{}, E: end})
-		w.Write(M{"event": "reset", "t": tid, "variant": "batcher", "size": batchers.ReadAheadBufferSize})
+		w.Write(M{"event": "reset", "t": tid, "variant": "batcher", "size": batchers.ReadAheadBufferSize, "bsize": 0})
 		rd := &scriptedReader{script: script, log: func(d []byte, e string) {
 			w.Write(M{"event": "read", "data": B(d), "err": e})
 		}}
@@ -386,6 +434,9 @@ func c04Trace(args []string) error {
 			w.Write(M{"event": "err"})
 		}
 		w.Write(M{"event": "end"})
+	}
+	if err := recordBatcherTraces(w, &tid, *nbt, *nb250, *nbf, *maxLen); err != nil {
+		return err
 	}
 	fmt.Println(w.N)
 	return nil
